@@ -13,6 +13,14 @@ Lemma ps_fold_snoc cs ps p st :
   fold_left (ps_step cs) (ps ++ [p]) st = ps_step cs (fold_left (ps_step cs) ps st) p.
 Proof. rewrite fold_left_app. reflexivity. Qed.
 
+Lemma pat_segs_notail p : p_tail p = false -> pat_segs p = p_segs p.
+Proof. unfold pat_segs. intros ->. reflexivity. Qed.
+
+(* lists without a "/**/" line *)
+Definition notail (ps : list apat) : Prop := forall p, In p ps -> p_tail p = false.
+Lemma notail_app l1 l2 : notail (l1 ++ l2) -> notail l1 /\ notail l2.
+Proof. intros H. split; intros p Hp; apply H; apply in_or_app; auto. Qed.
+
 (* a pattern that matches a parent directory exactly leaves a trace in pathspec's outcome *)
 Lemma anc_touches p cs d :
   In d (sprefixes cs) -> bm (p_segs p) d = true -> outcome_of p cs <> NoM.
@@ -24,23 +32,23 @@ Proof.
 Qed.
 
 Lemma nom_no_hits p cs :
-  outcome_of p cs = NoM ->
+  p_tail p = false -> outcome_of p cs = NoM ->
   pat_hits false cs p = false /\ forall d, In d (sprefixes cs) -> pat_hits true d p = false.
 Proof.
-  intros H. split.
-  - unfold pat_hits. unfold outcome_of in H.
+  intros Ht H. unfold pat_hits. rewrite (pat_segs_notail p Ht). fold (pat_hits false cs p). split.
+  - unfold outcome_of in H.
     destruct (p_dir p); [reflexivity|]. cbn.
     destruct (bm (p_segs p) cs); [discriminate|reflexivity].
-  - intros d Hd. unfold pat_hits. rewrite implb_true_r. cbn.
+  - intros d Hd. rewrite implb_true_r. cbn.
     destruct (bm (p_segs p) d) eqn:E; [|reflexivity].
     exfalso. eapply anc_touches; eauto.
 Qed.
 
 Lemma dirm_hits p cs :
-  outcome_of p cs = DirM ->
+  p_tail p = false -> outcome_of p cs = DirM ->
   pat_hits false cs p = false /\ exists d, In d (sprefixes cs) /\ pat_hits true d p = true.
 Proof.
-  unfold outcome_of, pat_hits. intros H.
+  intros Ht. unfold outcome_of, pat_hits. rewrite (pat_segs_notail p Ht). intros H.
   destruct (existsb (bm (p_segs p)) (sprefixes cs)) eqn:E.
   - apply existsb_exists in E. destruct E as (d & Hd & Hb).
     split.
@@ -49,16 +57,16 @@ Proof.
   - destruct (p_dir p); [discriminate|]. destruct (bm (p_segs p) cs); discriminate.
 Qed.
 
-Lemma filem_hits p cs : outcome_of p cs = FileM -> pat_hits false cs p = true.
+Lemma filem_hits p cs : p_tail p = false -> outcome_of p cs = FileM -> pat_hits false cs p = true.
 Proof.
-  unfold outcome_of, pat_hits. intros H. destruct (p_dir p).
+  intros Ht. unfold outcome_of, pat_hits. rewrite (pat_segs_notail p Ht). intros H. destruct (p_dir p).
   - destruct (existsb _ _); discriminate.
   - cbn. destruct (bm (p_segs p) cs); [reflexivity|]. destruct (existsb _ _); discriminate.
 Qed.
 
-Lemma hits_file_filem p cs : pat_hits false cs p = true -> outcome_of p cs = FileM.
+Lemma hits_file_filem p cs : p_tail p = false -> pat_hits false cs p = true -> outcome_of p cs = FileM.
 Proof.
-  unfold outcome_of, pat_hits. destruct (p_dir p); cbn; [discriminate|].
+  intros Ht. unfold outcome_of, pat_hits. rewrite (pat_segs_notail p Ht). destruct (p_dir p); cbn; [discriminate|].
   intros ->. reflexivity.
 Qed.
 
@@ -69,19 +77,21 @@ Definition sound_inv (ps : list apat) (cs : list chars) (st : option bool * nat)
    if Nat.eqb (snd st) 2 then level ps cs false = Some true
    else exists d, In d (sprefixes cs) /\ level ps d true = Some true).
 
-Lemma sound_inv_holds cs ps : sound_inv ps cs (fold_left (ps_step cs) ps (None, 0)).
+Lemma sound_inv_holds cs ps : notail ps -> sound_inv ps cs (fold_left (ps_step cs) ps (None, 0)).
 Proof.
-  induction ps as [|p ps IH] using rev_ind; [split; [cbn; lia|discriminate]|].
+  induction ps as [|p ps IH] using rev_ind; intros NT; [split; [cbn; lia|discriminate]|].
+  apply notail_app in NT. destruct NT as (NT & NTp). specialize (IH NT).
+  assert (p_tail p = false) as Htl by (apply NTp; left; reflexivity).
   rewrite ps_fold_snoc. set (st := fold_left (ps_step cs) ps (None, 0)) in *.
   destruct IH as (Hle & IH). unfold ps_step. destruct (outcome_of p cs) eqn:Ho.
-  - (* NoM *) destruct (nom_no_hits _ _ Ho) as (Hf & Hd).
+  - (* NoM *) destruct (nom_no_hits _ _ Htl Ho) as (Hf & Hd).
     split; [assumption|]. intros Ht. specialize (IH Ht).
     destruct (Nat.eqb (snd st) 2).
     + rewrite level_snoc, Hf. assumption.
     + destruct IH as (d & Hin & Hl). exists d. split; [assumption|]. rewrite level_snoc, (Hd d Hin). assumption.
   - (* FileM *) split; [cbn; lia|]. cbn. intros Ht.
-    rewrite level_snoc, (filem_hits _ _ Ho). assumption.
-  - (* DirM *) destruct (dirm_hits _ _ Ho) as (Hf & d & Hin & Hd).
+    rewrite level_snoc, (filem_hits _ _ Htl Ho). assumption.
+  - (* DirM *) destruct (dirm_hits _ _ Htl Ho) as (Hf & d & Hin & Hd).
     destruct (p_neg p) eqn:Hn; cbn.
     + destruct (Nat.leb (snd st) 1) eqn:Hl1; [split; [cbn; lia|discriminate]|].
       apply Nat.leb_gt in Hl1. assert (snd st = 2) as E2 by lia.
@@ -91,10 +101,10 @@ Proof.
       exists d. split; [assumption|]. rewrite level_snoc, Hd, Hn. reflexivity.
 Qed.
 
-Theorem ps_match_sound ps cs : ps_match ps cs = true -> git_ignored ps cs = true.
+Theorem ps_match_sound ps cs : notail ps -> ps_match ps cs = true -> git_ignored ps cs = true.
 Proof.
-  unfold ps_match, git_ignored. intros H.
-  destruct (sound_inv_holds cs ps) as (_ & Inv).
+  unfold ps_match, git_ignored. intros NT H.
+  destruct (sound_inv_holds cs ps NT) as (_ & Inv).
   destruct (fold_left (ps_step cs) ps (None, 0)) as [[[|]|] n]; cbn in H; try discriminate.
   specialize (Inv eq_refl). cbn in Inv. apply orb_true_iff.
   destruct (Nat.eqb n 2).
@@ -167,10 +177,10 @@ Proof.
 Qed.
 
 Theorem ps_match_complete ps cs :
-  parent_reinclude ps cs = false -> dir_reneg ps cs = false ->
+  notail ps -> parent_reinclude ps cs = false -> dir_reneg ps cs = false ->
   git_ignored ps cs = true -> ps_match ps cs = true.
 Proof.
-  intros G1 G2 H. unfold git_ignored in H. apply orb_true_iff in H.
+  intros NT G1 G2 H. unfold git_ignored in H. apply orb_true_iff in H.
   assert (fst (fold_left (ps_step cs) ps (None, 0)) = Some true) as E;
     [|unfold ps_match; rewrite E; reflexivity].
   destruct H as [H|H].
@@ -178,8 +188,10 @@ Proof.
     apply existsb_exists in H. destruct H as (d & Hin & Hx).
     destruct (level ps d true) as [[|]|] eqn:Hl; try discriminate.
     destruct (level_last _ _ _ Hl) as (l1 & p & l2 & -> & Hp & Hn & Hl2).
+    destruct (notail_app _ _ NT) as (_ & NT2).
+    assert (p_tail p = false) as Htp by (apply NT2; left; reflexivity).
     rewrite fold_left_app. cbn [fold_left].
-    unfold pat_hits in Hp. rewrite implb_true_r in Hp. cbn in Hp.
+    unfold pat_hits in Hp. rewrite (pat_segs_notail p Htp), implb_true_r in Hp. cbn in Hp.
     apply pos_keeps.
     + pose proof (anc_touches p cs d Hin Hp) as Ht. unfold ps_step.
       destruct (outcome_of p cs); [contradiction| |]; rewrite Hn; reflexivity.
@@ -189,7 +201,8 @@ Proof.
       { apply existsb_exists. exists d. split; [assumption|]. rewrite Hp. cbn.
         destruct (existsb (fun q => bm (p_segs q) d) l2) eqn:E; [|reflexivity].
         apply existsb_exists in E. destruct E as (q & Hq & Hb).
-        specialize (Hl2 q Hq). unfold pat_hits in Hl2. rewrite implb_true_r in Hl2. cbn in Hl2. congruence. }
+        specialize (Hl2 q Hq). unfold pat_hits in Hl2.
+        rewrite (pat_segs_notail q (NT2 q (or_intror Hq))), implb_true_r in Hl2. cbn in Hl2. congruence. }
       rewrite Ex in G1. cbn in G1.
       intros q Hq Ht. destruct (p_neg q) eqn:Hnq; [|reflexivity].
       assert (existsb (fun q0 => p_neg q0 && touches cs q0) l2 = true)
@@ -198,23 +211,24 @@ Proof.
   - (* the file itself is excluded by the last pattern that matches it *)
     destruct (level ps cs false) as [[|]|] eqn:Hl; try discriminate.
     destruct (level_last _ _ _ Hl) as (l1 & f & l2 & -> & Hp & Hn & Hl2).
+    destruct (notail_app _ _ NT) as (_ & NT2).
     rewrite fold_left_app. cbn [fold_left].
-    pose proof (hits_file_filem _ _ Hp) as Hof.
+    pose proof (hits_file_filem _ _ (NT2 f (or_introl eq_refl)) Hp) as Hof.
     unfold ps_step at 2. rewrite Hof, Hn. cbn [negb].
     apply after_file_match.
-    + intros q Hq Hc. apply filem_hits in Hc. rewrite (Hl2 q Hq) in Hc. discriminate.
+    + intros q Hq Hc. apply (filem_hits _ _ (NT2 q (or_intror Hq))) in Hc. rewrite (Hl2 q Hq) in Hc. discriminate.
     + apply dir_reneg_suffix in G2. cbn [dir_reneg] in G2. apply orb_false_iff in G2.
       destruct G2 as (G2 & _). unfold is_filem_pos in G2. rewrite Hof, Hn in G2. exact G2.
 Qed.
 
 Theorem ps_match_eq_git ps cs :
-  parent_reinclude ps cs = false -> dir_reneg ps cs = false ->
+  notail ps -> parent_reinclude ps cs = false -> dir_reneg ps cs = false ->
   ps_match ps cs = git_ignored ps cs.
 Proof.
-  intros G1 G2. destruct (git_ignored ps cs) eqn:Hg.
+  intros NT G1 G2. destruct (git_ignored ps cs) eqn:Hg.
   - apply ps_match_complete; assumption.
   - destruct (ps_match ps cs) eqn:Hm; [|reflexivity].
-    apply ps_match_sound in Hm. congruence.
+    apply (ps_match_sound _ _ NT) in Hm. congruence.
 Qed.
 
 (* ---------- laws of the matcher (S) ---------- *)
@@ -315,13 +329,13 @@ Proof.
 Qed.
 
 Theorem contains_eq_member fs cb r ps :
-  compile false (cb_lines cb) = CPats ps -> compile true (cb_lines cb) = CPats ps ->
+  compile false (cb_lines cb) = CPats ps -> compile true (cb_lines cb) = CPats ps -> notail ps ->
   (forall d, In d (cb_roots cb) -> lookup fs d = Some KDir) ->
   (forall root, find_root (cb_roots cb) r = Some root ->
      parent_reinclude ps (rel_comps root r) = false /\ dir_reneg ps (rel_comps root r) = false) ->
   contains_resolved fs cb r = member_resolved fs cb r.
 Proof.
-  intros Hc1 Hc2 Hd Hg. unfold contains_resolved, member_resolved.
+  intros Hc1 Hc2 NT Hd Hg. unfold contains_resolved, member_resolved.
   destruct (lookup fs r) as [[| |]|] eqn:Hl; try reflexivity.
   pose proof (has_language_eq r) as Hh.
   destruct (has_language r); destruct (is_source_file r); try discriminate Hh; cbn [negb]; [|reflexivity].
@@ -336,7 +350,7 @@ Proof.
   assert (rel_comps root r = map list_of_string (skipn (length root) r)) as Er.
   { unfold rel_comps. destruct (skipn (length root) r) eqn:E; [|reflexivity].
     exfalso. pose proof (skipn_length (length root) r) as L. rewrite E in L. cbn in L. lia. }
-  rewrite <- Er, (ps_match_eq_git ps _ G1 G2). reflexivity.
+  rewrite <- Er, (ps_match_eq_git ps _ NT G1 G2). reflexivity.
 Qed.
 
 (* ---------- enumeration and spelling ---------- *)
